@@ -13,6 +13,9 @@ Config: {'cap', 'auto_reload', 'callback', 'path': [entry…]}
          ['P', [[prefix, ['D', dir] | ['F', dir, checks]], …]]     prefixed(**delegates)
 Ops:  ['W', path, content, bad] | ['T', path] | ['X', path]       path: normalised, absolute
       ['L', filename, relative_to | None, cls, enc, cb, fault]    fault: None | 'io' | 'nf' | 'other'
+      ['LW', filename, relative_to, cls, enc, cb, fault, content, bad]   a load during which the file
+            it opens first is rewritten IN PLACE (same inode) after the load function took its
+            modification time and before the template class reads it: content new / time old
 """
 import os, posixpath, re, shutil
 
@@ -116,9 +119,9 @@ def gen_history(rng, maxlen=22):
             ws = [o for o in ops if o[0] == 'W']
             ops.append(['X', rng.choice(ws)[1]])
         else:
-            prev = [o for o in ops if o[0] == 'L']
+            prev = [o for o in ops if o[0] in ('L', 'LW')]
             if prev and rng.random() < 0.35:
-                o = list(rng.choice(prev))
+                o = ['L'] + list(rng.choice(prev))[1:7]
                 o[5], o[6] = False, None
                 ops.append(o)
                 continue
@@ -149,9 +152,13 @@ def gen_history(rng, maxlen=22):
                     name = posixpath.basename(target)
                 if not posixpath.isabs(name) and rng.random() < 0.3:
                     name = rng.choice(['./', 'sub/../', 'sub/deep/../../', 'q/../']) + name
-                ops.append(['L', name, rel, rng.randrange(2) if rng.random() < 0.15 else 0,
-                            rng.randrange(2) if rng.random() < 0.15 else 0,
-                            cfg['callback'] and rng.random() < 0.06, fault])
+                op = ['L', name, rel, rng.randrange(2) if rng.random() < 0.15 else 0,
+                      rng.randrange(2) if rng.random() < 0.15 else 0,
+                      cfg['callback'] and rng.random() < 0.06, fault]
+                if rng.random() < 0.12:
+                    c += 1
+                    op = ['LW'] + op[1:] + [c, rng.random() < 0.06]
+                ops.append(op)
                 continue
             fault = None
             if hasfn and rng.random() < 0.2:
@@ -206,7 +213,8 @@ def validate(cfg, ops):
              and posixpath.dirname(op[1])[len(ROOT) + 1:] in DIRS and isinstance(op[2], int)) or
             (op[0] in 'TX' and len(op) == 2 and isinstance(op[1], str) and op[1].startswith(ROOT + '/') and posixpath.normpath(op[1]) == op[1]
              and posixpath.dirname(op[1])[len(ROOT) + 1:] in DIRS) or
-            (op[0] == 'L' and len(op) == 7 and isinstance(op[1], str) and op[1] and not op[1].endswith('/') and
+            (op[0] in ('L', 'LW') and len(op) == (7 if op[0] == 'L' else 9) and
+             (op[0] == 'L' or (isinstance(op[7], int) and isinstance(op[8], bool))) and isinstance(op[1], str) and op[1] and not op[1].endswith('/') and
              posixpath.basename(op[1]) not in ('.', '..') and
              (op[2] is None or (isinstance(op[2], str) and (not posixpath.isabs(op[2]) or dir_exists(posixpath.dirname(op[2]))))) and
              isinstance(op[3], int) and isinstance(op[4], int) and isinstance(op[5], bool) and
@@ -332,7 +340,7 @@ class RealRun(object):
             if flags['fault'] == 'other':
                 raise LoadFuncError('injected')
             filepath = os.path.join(dirpath, filename)
-            fileobj = open(filepath, 'rb')
+            fileobj = (flags.get('open') or open)(filepath, 'rb')
             name = '@' + filename if alias else filename
             if not checks:
                 return filepath, name, fileobj, None
@@ -420,6 +428,53 @@ class RealRun(object):
             self.flags['cb'] = False
             self.flags['fault'] = None
 
+    def load_rewrite(self, op):
+        """the load of `op`, during which the first file that is opened successfully (by
+        `directory()` through the name `open` in the loader module's globals, shadowed for this
+        call, or by one of the harness's callables) is rewritten in place with op[7], op[8] at the
+        moment the template class starts reading it — after the load function took the time.
+        Returns (kind, val, rewritten real path | None)."""
+        import genshi.template.loader as LM
+        run = self
+        state = {'opened': None, 'done': None}
+        real_open = open
+
+        class Rewriting(object):
+            def __init__(self, f, path):
+                self._f, self._path = f, path
+
+            def read(self, *a):
+                if state['done'] is None:
+                    state['done'] = self._path
+                    with real_open(self._path, 'r+b') as g:      # in place: the same inode
+                        g.seek(0)
+                        g.truncate()
+                        g.write(content_bytes(op[7], op[8]))
+                    os.utime(self._path, (T0 + run.clock, T0 + run.clock))
+                    run.clock += 1
+                return self._f.read(*a)
+
+            def fileno(self):
+                return self._f.fileno()
+
+            def close(self):
+                return self._f.close()
+
+        def hooked(path, *a, **kw):
+            f = real_open(path, *a, **kw)
+            if state['opened'] is None:
+                state['opened'] = path
+                return Rewriting(f, path)
+            return f
+        LM.open = hooked
+        self.flags['open'] = hooked
+        try:
+            kind, val = self.load(op)
+        finally:
+            del LM.open
+            self.flags['open'] = None
+        return kind, val, state['done']
+
     def close(self):
         shutil.rmtree(self.root, ignore_errors=True)
 
@@ -444,6 +499,7 @@ def wire_history(cfg, ops):
         elif op[0] in 'TX':
             wops.append([Atom(op[0]), op[1]])
         else:
-            wops.append([Atom('L'), op[1], N if op[2] is None else op[2], op[3], op[4], B(op[5]),
-                         N if op[6] is None else Atom('io' if op[6] in ('io', 'nf') else 'other')])
+            wops.append([Atom(op[0]), op[1], N if op[2] is None else op[2], op[3], op[4], B(op[5]),
+                         N if op[6] is None else Atom('io' if op[6] in ('io', 'nf') else 'other')] +
+                        ([op[7], B(op[8])] if op[0] == 'LW' else []))
     return path, wops
